@@ -1,4 +1,5 @@
 """C12 — bytes never written read as zero; old data is never exposed."""
+import crashlib
 import fscklib
 import seqlib
 import vlib
@@ -19,7 +20,8 @@ def run(ctx):
                                       "bytes of the next owner of those blocks"})
     if ok_go:
         args = ["-seqs", "40", "-ops", "500", "-big"] if ctx.tier == "thorough" else ["-seqs", "8", "-ops", "400"]
-        lines, tr = seqlib.run_seq(ctx, args)
+        lines, tr = seqlib.run_seq(ctx, args + ["-locks"])
+        seqlib.two_phase(ctx, lines, ok_drv, "C12", "A transaction that re-locks a file writes back the inode and blocks it read before: a truncation committed in between is undone and the file shows bytes of blocks it no longer owns")
         if lines is not None:
             seqlib.analyse(ctx, lines, tr, ok_drv, "C12", relevant_ops={"read", "readlink"})
             ctx.cov["reads_compared"] = len([l for l in lines if l.startswith("read ")])
@@ -28,6 +30,10 @@ def run(ctx):
         rl = fscklib.run_images(ctx, ok_drv, "reclaim", ["reclaim", "-seed", str(ctx.seed)] + (["-hists", "6", "-rounds", "2"] if ctx.tier == "thorough" else ["-hists", "2", "-rounds", "1"]), set(), False)
         fscklib.oracle_lines(ctx, rl, "C12", "harness reclaim -seed %d (full-disk scenarios: a never-written block read after the index block of a refused WRITE was reused)" % ctx.seed)
         ctx.cov["full_disk_histories"] = len([l for l in rl or [] if l.startswith("# HIST")])
+        # after a crash: a never-written file on the RECOVERED server reads as zeros (its hole-filling READ takes blocks from an allocator
+        # that recovery rebuilt: blocks of files committed but not yet installed must not be among them)
+        crashlib.run_crash(ctx, ok_drv, "data", ["-workloads", "4", "-ops", "40", "-images", "300"] if ctx.tier == "thorough"
+                           else ["-workloads", "1", "-ops", "30", "-images", "60"], lambda label, key: label == "C12")
     vlib.finish(
         ctx, "proof",
         "theorems (byte level): a byte not written since the last truncation at or below it reads as zero; shrink to any size then grow exposes zeros; "
